@@ -13,6 +13,7 @@ import (
 	"runtime"
 	"strings"
 	"sync"
+	"sync/atomic"
 	"testing"
 	"time"
 
@@ -348,6 +349,29 @@ func TestC11_Concurrent(t *testing.T) {
 			}
 			r := vk.Rec("rec")
 			const G = 8
+			if fast {
+				// cold start: every site is reached for the first time by all goroutines in the same
+				// instant (a spinning barrier per site) - the moment a lookup cache is filled is
+				// the moment it can hand out a half-made entry
+				var arrived atomic.Int64
+				var cwg sync.WaitGroup
+				for g := 0; g < G; g++ {
+					cwg.Add(1)
+					go func() {
+						defer cwg.Done()
+						c := &siteCtx{ctx: context.Background(), tag: tag}
+						for k, s := range plain {
+							arrived.Add(1)
+							for arrived.Load() < int64(G*(k+1)) {
+							}
+							c.exp = c.exp[:0]
+							s.Fn(c)
+						}
+					}()
+				}
+				cwg.Wait()
+				vk.Class("concurrent:cold-start")
+			}
 			rounds := 3000
 			if vk.Thorough() {
 				rounds = 40000
